@@ -802,6 +802,10 @@ func (c *Checker) checkSimpleLiteralPattern(node ast.LiteralPatternNode, typ typ
 	n := c.checkExpression(node)
 	nodeType := c.TypeOf(n)
 	c.checkCanMatch(typ, nodeType, n.Location())
+	if !nodeType.IsLiteral() {
+		// eg. an interpolated string: the pattern has type String but matches a single value
+		return n.(ast.PatternNode), types.Never{}
+	}
 	return n.(ast.PatternNode), nodeType
 }
 
